@@ -18,6 +18,9 @@ os.makedirs(SCR, exist_ok=True)
 subprocess.run(f"rsync -a --exclude target --exclude .git/worktrees /repo/ {R}/", shell=True, check=True)
 os.environ['CARGO_TARGET_DIR'] = os.environ.get('TRY_SEED_TARGET', '/var/tmp/zeep-tryseed-target')
 os.environ['VERIF_REPO'] = R
+# the checks run against the patched copy: their evidence must not overwrite /verif/evidence (which describes /repo itself)
+os.environ['VERIF_EVIDENCE_DIR'] = SCR + '/evidence'
+os.makedirs(SCR + '/evidence', exist_ok=True)
 def sh(cmd, **kw):
     return subprocess.run(cmd, shell=True, capture_output=True, text=True, **kw)
 def tests():
